@@ -132,7 +132,7 @@ class WriterNumbers:
                 if isinstance(v, ast.Tuple) and len(v.elts) == 2 and isinstance(v.elts[0], ast.Constant):
                     key = v.elts[0].value
                     if key == b"CHNM":
-                        pending_chnm = self.number(v.elts[1], owner, env) + (st,) if self.number(v.elts[1], owner, env) else None
+                        pending_chnm = self.number(v.elts[1], owner, env, fn) + (st,) if self.number(v.elts[1], owner, env, fn) else None
                         if pending_chnm is None:
                             self.problems.append((f"chunk number not resolvable: {norm(v.elts[1])}", st))
                     elif key == b"CHDT" and pending_chnm is not None:
@@ -199,8 +199,11 @@ class WriterNumbers:
                 return None
         return None
 
-    def number(self, e: ast.expr, owner, env) -> Optional[Tuple[int, int, int]]:
+    def number(self, e: ast.expr, owner, env, fn: Optional[ast.FunctionDef] = None) -> Optional[Tuple[int, int, int]]:
         # pack("<I", K)
+        if fn is not None:
+            from .packed import subst_locals
+            e = subst_locals(fn, e)
         if isinstance(e, ast.Call) and norm(e.func) in ("pack", "struct.pack") and len(e.args) == 2:
             try:
                 fmt = self.repo.fold(e.args[0], ci=owner)
@@ -248,6 +251,8 @@ class WriterNumbers:
         return None
 
     def payload_field(self, e: ast.expr, fn: ast.FunctionDef) -> str:
+        from .packed import subst_locals
+        e = subst_locals(fn, e)
         t = norm(e)
         if t == "self.project.read()":
             return "project"
